@@ -196,6 +196,25 @@ theorem multiCreds_skip_empty (pre rest : List (String → Ref → Res)) (host :
     simp
     exact ih (fun g' hg' => h g' (List.mem_cons_of_mem _ hg'))
 
+/-! ## RegistryHostsFromConfig -/
+
+theorem hostHeadersFrom_spec (ms : List Bool) : ∀ (k i j : Nat),
+    (hostHeadersFrom k ms)[i]? = some (some j) → j = k + i ∧ ms[i]? = some true := by
+  induction ms with
+  | nil =>
+    intro k i j h
+    cases i <;> simp [hostHeadersFrom] at h
+  | cons m ms ih =>
+    intro k i j h
+    cases i with
+    | zero =>
+      cases m <;> simp [hostHeadersFrom] at h
+      simp [h]
+    | succ i =>
+      simp only [hostHeadersFrom, List.getElem?_cons_succ] at h
+      obtain ⟨h1, h2⟩ := ih (k + 1) i j h
+      exact ⟨by omega, by simpa using h2⟩
+
 /-! ## fetcher headers -/
 
 def AllConfined (l : List Req) : Prop := ∀ r ∈ l, r.confined
